@@ -17,7 +17,7 @@ var c03Universe = kit.EntUniverse{
 	IDs:     []string{"e1", "e2", "e3", "e4", "e5"},
 	Names:   []string{"a", "b", "c", "d", "e", "a", ""},
 	Aliases: []*string{nil, kit.Sp("x"), kit.Sp("y"), kit.Sp(""), nil, kit.Sp("x")},
-	Roles:   []string{"r1", "r2", "r3"},
+	Roles:   []string{"r1", "r2", "a", "ab", "b", "bc", "c"},
 	Notes:   []string{"", "n1", "n2"},
 	Fields:  []string{kit.FName, kit.FAlias, kit.FRoles, kit.FNote},
 	Hostile: true,
@@ -25,7 +25,18 @@ var c03Universe = kit.EntUniverse{
 
 func genC03(t *rapid.T) kit.History {
 	return kit.GenHistory(t, c03Cfg, 25, 4, false, 60, func(t *rapid.T, l string, m *kit.Model) kit.Op {
-		return kit.GenEntOpM(t, l, "things", c03Universe, m)
+		op := kit.GenEntOpM(t, l, "things", c03Universe, m)
+		// set values whose concatenation is ambiguous: {a,bc} and {ab,c} have the same size and the same joined bytes
+		if op.Spec != nil && rapid.IntRange(0, 5).Draw(t, l+"_regroup") == 0 {
+			op.Spec.Roles = []string{"a", "bc"}
+			if e, ok := m.Ents["things"][op.ID]; ok && fmt.Sprint(e.Roles) == "[a bc]" {
+				op.Spec.Roles = []string{"ab", "c"}
+			}
+			if op.Kind == "patch" {
+				op.Fields = append(op.Fields, kit.FRoles)
+			}
+		}
+		return op
 	})
 }
 
